@@ -12,6 +12,8 @@ mod server;
 mod state;
 pub mod transport;
 mod types;
+#[cfg(feature = "verif")]
+pub mod verif;
 
 use std::collections::{BTreeMap, HashMap, HashSet};
 use std::iter::once;
@@ -32,6 +34,8 @@ pub use self::state::{ClusterStateSnapshot, NodeState};
 use crate::digest::Digest;
 pub use crate::message::ChitchatMessage;
 pub use crate::server::{ChitchatHandle, spawn_chitchat};
+#[cfg(feature = "verif")]
+pub use crate::server::verif_select_nodes_for_gossip;
 use crate::state::ClusterState;
 pub use crate::types::{ChitchatId, DeletionStatus, Heartbeat, Version, VersionedValue};
 
